@@ -69,6 +69,51 @@ def stmt_containing(body, needle, what):
     return norm_ws(body[a:b + 1])
 
 
+def boost_shapes():
+    """The boost routines whose tie behaviour Model/PriceRoute.lean mirrors (the headers ledger is built against)."""
+    import os
+    inc = None
+    cache = os.path.join(os.environ.get("VERIF_BUILD") or os.path.join(os.path.dirname(os.path.dirname(os.path.abspath(__file__))), ".build"),
+                         "hooks", "CMakeCache.txt")
+    if os.path.exists(cache):
+        mm = re.search(r"^Boost_INCLUDE_DIR[^=]*=(.+)$", open(cache).read(), flags=re.M)
+        if mm and os.path.isdir(mm.group(1).strip()):
+            inc = mm.group(1).strip()
+    inc = inc or "/usr/include"
+
+    def hdr(rel):
+        path = os.path.join(inc, rel)
+        need(os.path.exists(path), "boost header not found: " + path)
+        with open(path, encoding="utf-8", errors="replace") as f:
+            return strip_comments(f.read())
+    out = {}
+    ver = re.search(r'#define BOOST_LIB_VERSION "([^"]+)"', hdr("boost/version.hpp"))
+    need(ver, "boost/version.hpp: BOOST_LIB_VERSION not found")
+    out["boost.version"] = ver.group(1)
+    rx = hdr("boost/graph/relax.hpp")
+    out["boost.relax_target"] = norm_ws(function_body(rx, r"bool relax_target\(typename graph_traits< Graph >::edge_descriptor e,"))
+    heap = hdr("boost/graph/detail/d_ary_heap.hpp")
+    out["boost.d_ary_heap.push"] = norm_ws(function_body(heap, r"void push\(const Value& v\)\s*\{"))
+    out["boost.d_ary_heap.pop"] = norm_ws(function_body(heap, r"void pop\(\)\s*\{"))
+    out["boost.d_ary_heap.update"] = norm_ws(function_body(heap, r"void update\(const Value& v\)\s*\{"))
+    out["boost.d_ary_heap.up"] = norm_ws(function_body(heap, r"void preserve_heap_property_up\(size_type index\)\s*\{"))
+    out["boost.d_ary_heap.down"] = norm_ws(function_body(heap, r"void preserve_heap_property_down\(\)\s*\{"))
+    m = re.search(r"static size_type parent\(size_type index\) \{ return \(index - 1\) / Arity; \}", heap)
+    need(m, "d_ary_heap: parent() changed")
+    m2 = re.search(r"static size_type first_child\(size_type index\)\s*\{\s*return index \* Arity \+ 1;\s*\}", heap)
+    need(m2, "d_ary_heap: first_child() changed")
+    out["boost.d_ary_heap.index"] = norm_ws(m.group(0)) + " " + norm_ws(m2.group(0))
+    bfs = hdr("boost/graph/breadth_first_search.hpp")
+    out["boost.breadth_first_visit"] = norm_ws(function_body(bfs, r"void breadth_first_visit\(const IncidenceGraph& g, SourceIterator sources_begin,"))
+    dj = hdr("boost/graph/dijkstra_shortest_paths.hpp")
+    m = re.search(r"typedef d_ary_heap_indirect< Vertex, (\d+), IndexInHeapMap, DistanceMap,\s*Compare >\s*MutableQueue;", dj)
+    need(m and m.group(1) == "4", "dijkstra_shortest_paths: the queue is no longer a 4-ary indirect heap")
+    out["boost.dijkstra.queue"] = norm_ws(m.group(0))
+    out["boost.dijkstra.tree_edge"] = norm_ws(function_body(dj, r"template < class Edge, class Graph > void tree_edge\(Edge e, Graph& g\)\s*\{"))
+    out["boost.dijkstra.gray_target"] = norm_ws(function_body(dj, r"template < class Edge, class Graph > void gray_target\(Edge e, Graph& g\)\s*\{"))
+    return out
+
+
 def shapes_and_flags():
     sh = {}
     fl = {}
@@ -98,6 +143,17 @@ def shapes_and_flags():
     sh["history.find_price.source"] = norm_ws(one)
     sh["history.find_price.source_target"] = norm_ws(two)
     need("price.is_null() || point.when > most_recent" in norm_ws(one), "history.cc find_price(source): selection test changed")
+    # route choice on general graphs: Dijkstra with max as distance_combine, default compare / zero / inf
+    fm = re.search(r"template <typename T>\s*struct f_max.*?\{\s*T operator\(\)\(const T& x, const T& y\) const \{\s*return std::max\(x, y\);\s*\}\s*\};", h, flags=re.S)
+    need(fm, "history.cc: f_max changed")
+    sh["history.f_max"] = norm_ws(re.sub(r"#if.*?#endif", "", fm.group(0), flags=re.S))
+    dj = re.search(r"dijkstra_shortest_paths\(fg,\s*sv,\s*predecessor_map\(predecessorMap\)\s*\.distance_map\(distanceMap\)\s*\.distance_combine\(f_max<long>\(\)\)\);", two)
+    need(dj, "history.cc find_price(source,target): dijkstra_shortest_paths call changed")
+    sh["history.dijkstra_call"] = norm_ws(dj.group(0))
+    gt = re.search(r"typedef adjacency_list\s*<vecS,\s*vecS,\s*undirectedS,", h)
+    need(gt, "history.cc: the price graph is no longer adjacency_list<vecS, vecS, undirectedS>")
+    sh["history.graph_type"] = norm_ws(gt.group(0))
+    sh.update(boost_shapes())
     need("if (pprice.commodity_ptr() != last_target) price *= pprice.inverted(); else price *= pprice;" in norm_ws(two),
          "history.cc find_price(source,target): direction test changed")
 
@@ -120,6 +176,14 @@ def shapes_and_flags():
     sh["commodity.h.add_price"] = norm_ws(d.group(0))
     cfind = function_body(c, r"commodity_t::find_price\(const commodity_t \* commodity,\s*const datetime_t&\s+moment,\s*const datetime_t&\s+oldest\) const\s*\{")
     sh["commodity.find_price"] = norm_ws(cfind)
+    # the memo of find_price: key type, map type, bound (commodity.h 108-114); exact `find` on the key in the body above
+    m = re.search(r"typedef tuple<datetime_t, datetime_t,\s*const commodity_t \*> memoized_price_entry;\s*"
+                  r"typedef std::map<memoized_price_entry,\s*optional<price_point_t> > memoized_price_map;\s*"
+                  r"static const std::size_t\s+max_price_map_size = \d+;\s*mutable memoized_price_map price_map;", ch)
+    need(m, "commodity.h: memoized price map declarations changed")
+    sh["commodity.h.price_memo"] = norm_ws(m.group(0))
+    need("base->price_map.find(entry)" in norm_ws(cfind) and "base_t::memoized_price_entry entry(moment, oldest, commodity ? commodity : NULL);" in norm_ws(cfind),
+         "commodity.cc find_price: memo key / exact lookup changed")
 
     # ---- pool.cc ----------------------------------------------------------------
     p = clean("pool.cc")
